@@ -26,7 +26,7 @@ def draw_config(ch, max_events=60, allow_zero=True):
     else:
         n = 5 + ch.draw(max(1, max_events - 4), "events")
     if d["mode"] == "Target":
-        n = n * 8  # a few percent of the instants have the source below the limb
+        n = n * 20  # a few percent of the instants have the source below the limb
     d["thrown_events"] = n
     sim.thrown_events = n
     sp = ch.draw(3, "spectrum")
